@@ -498,7 +498,8 @@ class Project:
                 for o in outs:
                     t = o.rstrip(b"/")
                     if o.endswith(b"/"):
-                        ok = read(os.path.join(t, b"f")) == payload + b"#f" and read(os.path.join(t, b"sub", b"g")) == payload + b"#g"
+                        ok = read(os.path.join(t, b"f")) == payload + b"#f" and read(os.path.join(t, b"sub", b"g")) == payload + b"#g" \
+                            and read(os.path.join(t, b"sub", b"deep", b"h")) == payload + b"#h"
                     else:
                         ok = read(t) == payload + b"@" + o
                     if not ok:
